@@ -3,11 +3,13 @@ from pyvc.harness import PROPERTY_MODULES
 
 PROPERTY_MODULES.update({
     "C01": "contracts.C01_rates",
+    "C02": "contracts.C02_likelihood",
     "C03": "contracts.C03_interpolators",
     "C06": "contracts.C06_test_statistics",
     "C07": "contracts.C07_asymptotics",
     "C08": "contracts.C08_hypotest",
     "C09": "contracts.C09_upper_limits",
+    "C10": "contracts.C10_batching",
     "C17": "contracts.C17_patchset",
     "C19": "contracts.C19_cli",
 })
